@@ -8,7 +8,8 @@
 //
 // stdin, one request per line (paths must not contain blanks):
 //   sheet  <id> <path>                       register a stylesheet (compiled, to check it, and dropped)
-//   source <id> <mode> <path>                mode: default | xerces-ts | xerces-default | xerces-nopool | xerces-mapping
+//   source <id> <mode> <path>                mode: default | xerces-ts | xerces-ts-setid (no DTD needed: IDs marked with
+//                                            DOMElement::setIdAttribute) | xerces-default | xerces-nopool | xerces-mapping
 //   Every `run` first computes the sequential reference on PRIVATE copies (own compile, own parse), then
 //   compiles/parses the SHARED objects afresh, so that the threads meet them cold: anything built lazily
 //   inside a shared object is built under contention, where ThreadSanitizer can see it.
@@ -40,6 +41,11 @@
 #include <thread>
 #include <vector>
 
+#include <cxxabi.h>
+#include <dlfcn.h>
+#include <execinfo.h>
+
+#include <xercesc/dom/DOM.hpp>
 #include <xercesc/framework/LocalFileInputSource.hpp>
 #include <xercesc/parsers/XercesDOMParser.hpp>
 #include <xercesc/util/PlatformUtils.hpp>
@@ -62,6 +68,66 @@
 #include <xalanc/XercesParserLiaison/XercesParserLiaison.hpp>
 
 using namespace xalanc;
+
+// ---- allocation probe -------------------------------------------------------------------------------------------------
+// Every SHARED object of a run (the owner transformer with its compiled stylesheets and default parsed sources, the liaisons and
+// wrappers of the Xerces-backed parsed sources) is built on this MemoryManager; the threads' own transformers use the default
+// one.  While the threads run the probe is armed: any allocate()/deallocate() that reaches it then happens INSIDE a shared
+// object during the concurrent phase.  The only legitimate ones are those under the mutex of the thread-safe wrapper's string
+// pool (XercesLiaisonXalanDOMStringPool::get is on the stack); everything else is a write to shared state by a transformation
+// -- reported with the library frames of its stack, in the ThreadSanitizer build and in the normal build alike.
+class SharedProbe : public xercesc::MemoryManager
+{
+public:
+    SharedProbe() : m_armed(false), m_allowed(0), m_bad(0) {}
+    virtual xercesc::MemoryManager* getExceptionMemoryManager() { return XalanMemMgrs::getDefaultXercesMemMgr().getExceptionMemoryManager(); }
+    virtual void* allocate(XMLSize_t size) { if (m_armed.load()) note("allocate"); return XalanMemMgrs::getDefaultXercesMemMgr().allocate(size); }
+    virtual void deallocate(void* p) { if (m_armed.load() && p != 0) note("deallocate"); XalanMemMgrs::getDefaultXercesMemMgr().deallocate(p); }
+    void arm() { m_allowed = 0; m_bad = 0; { std::lock_guard<std::mutex> g(m_mutex); m_first.clear(); } m_armed = true; }
+    void disarm() { m_armed = false; }
+    long allowed() const { return m_allowed.load(); }
+    long bad() const { return m_bad.load(); }
+    std::string first() { std::lock_guard<std::mutex> g(m_mutex); return m_first; }
+private:
+    void note(const char* what)
+    {
+        void* frames[64];
+        const int n = backtrace(frames, 64);
+        bool pool = false;
+        std::string syms;
+        int shown = 0;
+        for (int i = 2; i < n; ++i)
+        {
+            Dl_info info;
+            if (dladdr(frames[i], &info) == 0 || info.dli_sname == 0) continue;
+            if (strstr(info.dli_sname, "XercesLiaisonXalanDOMStringPool") != 0) pool = true;
+            if (shown < 7 && info.dli_fname != 0 && strstr(info.dli_fname, "libxalan-c") != 0)
+            {
+                int st = 0;
+                char* dm = abi::__cxa_demangle(info.dli_sname, 0, 0, &st);
+                std::string nm = dm ? dm : info.dli_sname;
+                if (dm) free(dm);
+                size_t par = nm.find('(');
+                if (par != std::string::npos) nm.erase(par);
+                for (size_t a; (a = nm.find("xalanc_1_12::")) != std::string::npos; ) nm.erase(a, 13);
+                for (size_t a; (a = nm.find('<')) != std::string::npos; ) { size_t b = a, d = 0; for (; b < nm.size(); ++b) { if (nm[b] == '<') ++d; else if (nm[b] == '>' && --d == 0) break; } nm.erase(a, b < nm.size() ? b - a + 1 : std::string::npos); }
+                for (char& c : nm) if (c == ' ') c = '_';
+                syms += (shown ? ";" : "") + nm;
+                ++shown;
+            }
+        }
+        if (pool) { ++m_allowed; return; }
+        ++m_bad;
+        std::lock_guard<std::mutex> g(m_mutex);
+        if (m_first.empty()) m_first = std::string(what) + ":" + (syms.empty() ? "?" : syms);
+    }
+    std::atomic<bool> m_armed;
+    std::atomic<long> m_allowed, m_bad;
+    std::mutex m_mutex;
+    std::string m_first;
+};
+
+static SharedProbe g_probe;
 
 static uint64_t fnv(const std::string& s)
 {
@@ -210,7 +276,22 @@ struct Job { std::string text; std::string sheet, src; char kind; };
 struct Result { int rc; uint64_t h; size_t len; std::string out; };
 
 // Parses `spec` into `s`; `owner` keeps default / xerces-default sources alive.
-static bool makeSource(XalanTransformer& owner, const SourceSpec& spec, Source& s, std::string& err)
+static void markIdAttributes(xercesc::DOMNode* n)
+{
+    // IDs that do not come from a DTD: what an application does with DOMElement::setIdAttribute (or a schema does)
+    static const XMLCh idName[] = { 'i', 'd', 0 };
+    for (; n != 0; n = n->getNextSibling())
+    {
+        if (n->getNodeType() == xercesc::DOMNode::ELEMENT_NODE)
+        {
+            xercesc::DOMElement* e = static_cast<xercesc::DOMElement*>(n);
+            if (e->hasAttribute(idName)) e->setIdAttribute(idName, true);
+        }
+        markIdAttributes(n->getFirstChild());
+    }
+}
+
+static bool makeSource(XalanTransformer& owner, const SourceSpec& spec, Source& s, std::string& err, MemoryManager& mgr = XalanMemMgrs::getDefaultXercesMemMgr())
 {
     s.mode = spec.mode; s.path = spec.path;
     const std::string& mode = spec.mode;
@@ -230,10 +311,11 @@ static bool makeSource(XalanTransformer& owner, const SourceSpec& spec, Source& 
             const xercesc::LocalFileInputSource in(XalanDOMString(spec.path.c_str()).c_str());
             s.parser->parse(in);
             if (s.parser->getDocument() == 0) { err = "no document"; return false; }
-            s.liaison.reset(new XercesParserLiaison);
+            s.liaison.reset(new XercesParserLiaison(mgr));
             s.support.reset(new XercesDOMSupport(*s.liaison));
-            if (mode == "xerces-ts")             // the documented way: threadSafe=true, buildWrapper=true
-                s.owned.reset(new XercesDOMWrapperParsedSource(s.parser->getDocument(), *s.liaison, *s.support, uri));
+            if (mode == "xerces-ts-setid") markIdAttributes(s.parser->getDocument()->getFirstChild());
+            if (mode == "xerces-ts" || mode == "xerces-ts-setid")   // the documented way: threadSafe=true, buildWrapper=true
+                s.owned.reset(new XercesDOMWrapperParsedSource(s.parser->getDocument(), *s.liaison, *s.support, uri, mgr));
             else if (mode == "xerces-nopool")    // wrapper pre-built, plain (unsynchronised) string pool
                 s.owned.reset(new FlagParsedSource(s.parser->getDocument(), *s.liaison, uri, false, true));
             else if (mode == "xerces-mapping")   // wrapper nodes built on demand
@@ -375,7 +457,7 @@ int main(int argc, char** argv)
                 }
 
                 // 2. the shared objects, fresh (cold) for this run
-                XalanTransformer owner; owner.setWarningStream(0);
+                XalanTransformer owner(g_probe); owner.setWarningStream(0);
                 std::map<std::string, Sheet> sheets;
                 std::map<std::string, Source> sources;
                 bool setupOk = true;
@@ -389,7 +471,7 @@ int main(int argc, char** argv)
                     if (!sources.count(j.src))
                     {
                         std::string err;
-                        if (!makeSource(owner, sourceSpecs[j.src], sources[j.src], err)) setupOk = false;
+                        if (!makeSource(owner, sourceSpecs[j.src], sources[j.src], err, g_probe)) setupOk = false;
                     }
                 }
                 if (!setupOk) { std::cout << "run " << label << " setup-failed" << std::endl; continue; }
@@ -400,6 +482,7 @@ int main(int argc, char** argv)
                 std::mutex diffMutex; std::string firstDiff;
                 Barrier barrier(nthreads);
                 std::vector<std::thread> ths;
+                g_probe.arm();      // from here to the join nothing may allocate inside a shared object (string-pool mutex excepted)
                 for (int ti = 0; ti < nthreads; ++ti)
                 {
                     ths.emplace_back([&, ti]()
@@ -447,6 +530,7 @@ int main(int argc, char** argv)
                     });
                 }
                 for (auto& th : ths) th.join();
+                g_probe.disarm();
                 std::ostringstream o;
                 o << "run " << label << " jobs=" << nj;
                 (void) cfgRun;
@@ -454,6 +538,8 @@ int main(int argc, char** argv)
                 for (size_t k = 0; k < nj; ++k)
                     o << " " << jobs[k].text << "=" << ref[k].rc << ":" << std::hex << ref[k].h << std::dec << ":" << ref[k].len << ":" << equal[k] << "/" << total[k];
                 o << firstDiff;
+                o << " PROBE allowed=" << g_probe.allowed() << " bad=" << g_probe.bad();
+                if (g_probe.bad() != 0) o << " first=" << g_probe.first();
                 std::cout << o.str() << std::endl;
                 sources.clear();    // before `owner` goes
             }
